@@ -71,29 +71,43 @@ def cpuMin (bk : List Nat) (ncpu b : Nat) : Nat :=
 def cpuMax (bk : List Nat) (ncpu b : Nat) : Nat :=
   (List.range ncpu).foldl (fun acc i => if bk.getD i 0 < b ∧ b ≤ bk.getD (i + 1) 0 then i else acc) 0
 
-/-- `minCube`: the level the search cubes may not be finer than (0 = as coded: no limit) -/
-def getCpuList (t : HTable) (bb : BBox) (lmax levelmax ncpu ndim : Nat) (bk : List Nat) (minCube : Nat := 0) : List Nat :=
-  let dmax := maxR (maxR (bb.xmax - bb.xmin) (bb.ymax - bb.ymin)) (bb.zmax - bb.zmin)
-  let lmin0 := cubeLevel dmax lmax
-  let lmin := if minCube > 0 && lmin0 > minCube then minCube else lmin0
-  let bitLength := lmin - 1
-  let maxdom : Nat := 2 ^ bitLength
-  let (imin, jmin, kmin) := if bitLength > 0 then
-      (truncNat (bb.xmin * (maxdom : Rat)), truncNat (bb.ymin * (maxdom : Rat)), truncNat (bb.zmin * (maxdom : Rat))) else (0, 0, 0)
-  let (imax, jmax, kmax) := if bitLength > 0 then (imin + 1, jmin + 1, kmin + 1) else (0, 0, 0)
-  let dkey : Nat := (2 ^ (levelmax + 1) / maxdom) ^ ndim
-  let ndom := if bitLength > 0 then 8 else 1
-  let idom := [imin, imax, imin, imax, imin, imax, imin, imax]
-  let jdom := [jmin, jmin, jmax, jmax, jmin, jmin, jmax, jmax]
-  let kdom := [kmin, kmin, kmin, kmin, kmax, kmax, kmax, kmax]
-  let bounds : List (Nat × Nat) := (List.range ndom).map fun i =>
-    let om := if bitLength > 0 then key t (idom.getD i 0) (jdom.getD i 0) (kdom.getD i 0) bitLength else 0
-    (om * dkey, (om + 1) * dkey)
-  let ranges := bounds.map fun b => (cpuMin bk ncpu b.1, cpuMax bk ncpu b.2)
+/-- append the cpus `r.1+1 .. r.2+1` of every range, skipping the ones already present -/
+def collect (ranges : List (Nat × Nat)) : List Nat :=
   ranges.foldl (fun (acc : List Nat) (r : Nat × Nat) =>
     (List.range (r.2 + 1 - r.1)).foldl (fun (acc : List Nat) k =>
       let c := r.1 + k + 1
       if acc.contains c then acc else acc ++ [c]) acc) []
+
+/-- number of bits per axis of the search cubes: `lmin - 1` -/
+def bitLengthOf (bb : BBox) (lmax minCube : Nat) : Nat :=
+  let dmax := maxR (maxR (bb.xmax - bb.xmin) (bb.ymax - bb.ymin)) (bb.zmax - bb.zmin)
+  let lmin0 := cubeLevel dmax lmax
+  let lmin := if minCube > 0 && lmin0 > minCube then minCube else lmin0
+  lmin - 1
+
+/-- integer coordinates of the search cubes (eight neighbours of the box's lower corner, or the whole domain) -/
+def cubes (bb : BBox) (bitLength : Nat) : List (Nat × Nat × Nat) :=
+  let maxdom : Nat := 2 ^ bitLength
+  let (imin, jmin, kmin) := if bitLength > 0 then
+      (truncNat (bb.xmin * (maxdom : Rat)), truncNat (bb.ymin * (maxdom : Rat)), truncNat (bb.zmin * (maxdom : Rat))) else (0, 0, 0)
+  let (imax, jmax, kmax) := if bitLength > 0 then (imin + 1, jmin + 1, kmin + 1) else (0, 0, 0)
+  let ndom := if bitLength > 0 then 8 else 1
+  let idom := [imin, imax, imin, imax, imin, imax, imin, imax]
+  let jdom := [jmin, jmin, jmax, jmax, jmin, jmin, jmax, jmax]
+  let kdom := [kmin, kmin, kmin, kmin, kmax, kmax, kmax, kmax]
+  (List.range ndom).map fun i => (idom.getD i 0, jdom.getD i 0, kdom.getD i 0)
+
+/-- key interval of a cube and the cpu range it selects ("last match wins" loops) -/
+def cubeRange (t : HTable) (bitLength levelmax ncpu ndim : Nat) (bk : List Nat) (c : Nat × Nat × Nat) : Nat × Nat :=
+  let maxdom : Nat := 2 ^ bitLength
+  let dkey : Nat := (2 ^ (levelmax + 1) / maxdom) ^ ndim
+  let om := if bitLength > 0 then key t c.1 c.2.1 c.2.2 bitLength else 0
+  (cpuMin bk ncpu (om * dkey), cpuMax bk ncpu ((om + 1) * dkey))
+
+/-- `minCube`: the level the search cubes may not be finer than (0 = as coded: no limit) -/
+def getCpuList (t : HTable) (bb : BBox) (lmax levelmax ncpu ndim : Nat) (bk : List Nat) (minCube : Nat := 0) : List Nat :=
+  let bitLength := bitLengthOf bb lmax minCube
+  collect ((cubes bb bitLength).map (cubeRange t bitLength levelmax ncpu ndim bk))
 
 /-- `hilbert_cpu_list`: `none` = no pre-selection (all cpus) -/
 def hilbertCpuList (t : HTable) (ordering : String) (preds : List Loader.Pred) (boxSize : Rat) (levelmax lmax ncpu ndim : Nat)
